@@ -21,10 +21,12 @@ EXPLANATION = (
     "R-nan-restore (missing values stay missing iff dropna=False: boolean provenance, see C04); "
     "R-aggregate-fill (a modality absent from the dev sample must not make every candidate "
     "non-viable); R-dropna-stage (the NaN stage runs iff dropna, after the labels were converted with "
-    "dropna=False so that NaN is a modality of its own during stage 1)."
+    "dropna=False so that NaN is a modality of its own during stage 1, and a failed NaN stage drops the "
+    "feature); R-index-kept (transformed labels are stored with index=X.index, so missing values stay "
+    "missing in place when dropna=False)."
 )
 NOT_DECIDED = "actual label frequencies / label counts after transform on data"
-FLOORS = {"R-viability-formula": 1, "R-enum-bounds": 11, "R-default-minfreqmod": 2, "R-printer-agreement": 5, "R-nan-restore": 2, "R-aggregate-fill": 2, "R-dropna-stage": 2}
+FLOORS = {"R-viability-formula": 1, "R-enum-bounds": 11, "R-default-minfreqmod": 2, "R-printer-agreement": 7, "R-nan-restore": 2, "R-aggregate-fill": 2, "R-dropna-stage": 3, "R-index-kept": 1}
 
 
 def rule_default(ctx):
@@ -98,6 +100,11 @@ def check(ctx):
     c04.rule_nan_restore(ctx)
     carver.check_aggregate_fill(ctx, "R-aggregate-fill")
     rule_dropna_stage(ctx)
+    carver.check_stage_results(ctx, "R-dropna-stage")
+    carver.check_printer_raw(ctx, "R-printer-agreement")
+    from . import c07
+
+    c07.rule_index_kept(ctx)
 
 
 MUTANTS = [
@@ -111,6 +118,9 @@ MUTANTS = [
     M("binary frequency normalised by the target count", [(F_BIN, "                    \"frequency\": xtab.sum(axis=1) / xtab.sum().sum(),", "                    \"frequency\": xtab.sum(axis=1) / xtab[1].sum(),")], "R-printer-agreement", "BinaryCarver._printer"),
     M("NaN reinstated when dropna (polarity)", [(F_BASE, "            if not dropna:  # checking whether", "            if dropna:  # checking whether")], "R-nan-restore"),
     M("D2-reverted: crosstab reindexed without fill value", [(F_BIN, "xtab = xtab.reindex(labels_orders[feature], fill_value=0)", "xtab = xtab.reindex(labels_orders[feature])")], "R-aggregate-fill", "BinaryCarver", quick=True),
+    M("statistics rounded for display before the viability test", [(F_BIN, "                    \"frequency\": xtab.sum(axis=1) / xtab.sum().sum(),\n                }\n            )", "                    \"frequency\": xtab.sum(axis=1) / xtab.sum().sum(),\n                }\n            ).round(4)")], "R-printer-agreement", "BinaryCarver._printer"),
+    M("failed missing-value stage keeps the stage-1 carving", [(F_BC, "                # getting most associated combination\n                best_association, order = self._get_best_association(\n                    feature,\n                    order,\n                    xagg,\n                    combinations,\n                    xagg_dev=xagg_dev,\n                    dropna=True,\n                )", "                # getting most associated combination\n                nan_association, nan_order = self._get_best_association(\n                    feature,\n                    order,\n                    xagg,\n                    combinations,\n                    xagg_dev=xagg_dev,\n                    dropna=True,\n                )\n                if nan_association is not None:\n                    order = nan_order")], "R-dropna-stage", "search stage"),
+    M("index=X.index dropped", [(F_BASE, "{feature: values for feature, values in all_transformed}, index=X.index\n", "{feature: values for feature, values in all_transformed}\n")], "R-index-kept"),
     M("NaN grouped before carving", [(F_BC, "            values_orders=self.values_orders,\n            str_nan=self.str_nan,\n            dropna=False,\n        )\n\n        # computing crosstabs", "            values_orders=self.values_orders,\n            str_nan=self.str_nan,\n            dropna=True,\n        )\n\n        # computing crosstabs")], "R-dropna-stage"),
     M("stage 1 searches with the NaN row", [(F_BC, "                feature,\n                order,\n                raw_xagg,\n                combinations,\n                xagg_dev=raw_xagg_dev,", "                feature,\n                order,\n                xagg,\n                combinations,\n                xagg_dev=xagg_dev,")], "R-dropna-stage", "stage 1"),
 ]
